@@ -40,8 +40,11 @@ class TypeScriptValueExtractor:
     FIXED_REPRESENTATIONS = {"array": "[...]", "object": "{...}"}
 
     def get_node_text(self, node: Node, content: str) -> str:
-        """Get text content of a node."""
-        return content[node.start_byte : node.end_byte]
+        """Get text content of a node.
+
+        Tree-sitter offsets count UTF-8 bytes, not characters: slice the encoded source.
+        """
+        return content.encode("utf-8")[node.start_byte : node.end_byte].decode("utf-8")
 
     def get_value_string(self, node: Node, content: str) -> str | None:
         """Get string representation of a value node."""
